@@ -171,7 +171,11 @@ func constSetOf(v ssa.Value, depth int) map[int64]bool {
 	}
 	if ph, ok := v.(*ssa.Phi); ok {
 		out := map[int64]bool{}
-		for _, e := range ph.Edges {
+		edges := ph.Edges
+		if le := phiLiveEdges(ph); le != nil {
+			edges = le // the merged result of a normalised helper: failure-path values are dead at the uses
+		}
+		for _, e := range edges {
 			s := constSetOf(e, depth+1)
 			if s == nil {
 				return nil
